@@ -3052,3 +3052,5 @@ QUERIES["C07"] = QUERIES.get("C07", []) + [q_c06_txn_glue] + [q for q in _QC14 i
 # C09 names the author-heads report among the encodings that round-trip: AuthorHeads::encode / decode are decided by C13's queries
 from queries_c13api import QUERIES_C13API as _QC13API  # noqa: E402
 QUERIES["C09"] = QUERIES.get("C09", []) + [q_c13_heads_encode] + _QC13API
+from queries_c13news import QUERIES_C13NEWS  # noqa: E402
+QUERIES["C13"] = QUERIES.get("C13", []) + QUERIES_C13NEWS
